@@ -5,7 +5,7 @@
 From Coq Require Import List ZArith NArith String Bool Arith Lia.
 Import ListNotations.
 From Verif Require Import Common.Base Model.Fmtp Model.Codec Model.HeaderExt Model.Section
-     Model.CodecAssoc Proofs.Codec Proofs.Section Proofs.Answer Proofs.CodecHist Proofs.ExtNeg.
+     Model.CodecAssoc Proofs.Codec Proofs.Section Proofs.Answer Proofs.CodecHist Proofs.ExtNeg Proofs.CodecPrefs.
 From Verif Require Proofs.AnswerDir.
 Module ADP := Verif.Proofs.AnswerDir.
 Open Scope string_scope.
@@ -900,6 +900,192 @@ Proof.
   destruct (assoc_of s1 offer) as [assoc|e|] eqn:Ha; try discriminate.
   eapply (answer_secs_exts K pairs s1 offer assoc l Hk1 Hok Hreg).
   - eapply srd_offer_x; eauto.
+  - eapply srd_offer_flags; eauto.
+  - intros o i Hin. unfold assoc_of in Ha.
+    destruct (assoc_secs_spec _ _ _ _ _ Ha o i Hin) as [j [t Hjt]]. exists j, t. exact Hjt.
+  - exact Hc.
+Qed.
+
+(* ---------- C10 over histories: payload types listed once ---------- *)
+
+(* distinct, non-zero payload types *)
+Definition pts_ok (l : list codec) : Prop :=
+  NoDup (map c_pt l) /\ forall c, In c l -> c_pt c <> 0%N.
+
+Lemma pts_ok_nil : pts_ok [].
+Proof. split; [constructor|intros c []]. Qed.
+
+Lemma pts_ok_filter_rtx : forall l, pts_ok l -> pts_ok (filter_unattached_rtx l).
+Proof.
+  intros l [H1 H2]. split; [now apply filter_rtx_nodup|].
+  intros c Hc. apply H2. now apply filter_rtx_incl in Hc.
+Qed.
+
+Definition pinv (s : mpc) : Prop :=
+  pts_ok (e_nvideo (m_e s)) /\ pts_ok (e_naudio (m_e s)) /\
+  forall i x, nth_error (m_ext s) i = Some x -> pts_ok (tx_prefs x).
+
+Definition offer_pts (offer : list osec) : Prop :=
+  forall o c, In o offer -> In c (os_codecs o) -> c_pt c <> 0%N.
+
+Lemma pinv_add_local : forall s k d prefs,
+  pinv s -> pts_ok prefs -> pinv (fst (fst (add_local s k d prefs))).
+Proof.
+  intros s k d prefs [Hv [Ha Hp]] Hprefs. unfold add_local.
+  assert (Hsame : pinv s) by (split; [|split]; assumption).
+  destruct d; try exact Hsame;
+    (destruct (sends _ && _); [exact Hsame|]);
+    destruct (apply_prefs (m_e s) k prefs) as [P perr] eqn:Hap; cbn [fst];
+    (split; [exact Hv|split; [exact Ha|]]; cbn [m_ext];
+     intros i x Hx;
+     destruct (Nat.lt_ge_cases i (List.length (m_ext s))) as [L|G];
+     [ rewrite nth_error_app1 in Hx by lia; eapply Hp; eauto
+     | rewrite nth_error_app2 in Hx by lia;
+       destruct (i - List.length (m_ext s)) as [|n]; [|destruct n; discriminate];
+       cbn in Hx; injection Hx as <-; cbn [tx_prefs];
+       unfold apply_prefs, set_codec_preferences in Hap;
+       destruct (forallb _ prefs); inversion Hap; subst;
+       [now apply pts_ok_filter_rtx|apply pts_ok_nil] ]).
+Qed.
+
+Lemma engine_pts_step : forall e x offer e' x' r,
+  offer_pts offer ->
+  update_remote_x e x (map os_rsec offer) = (e', x', r) ->
+  pts_ok (e_nvideo e) -> pts_ok (e_naudio e) ->
+  pts_ok (e_nvideo e') /\ pts_ok (e_naudio e').
+Proof.
+  intros e x offer e' x' r Hop H [Nv Zv] [Na Za].
+  destruct (update_remote_x_engine (map os_rsec offer) e x) as [He _]. rewrite H in He. cbn [fst] in He.
+  destruct (update_from_remote e (map rsection_of (map os_rsec offer))) as [e2 res] eqn:Hu.
+  cbn [fst] in He. subst e2.
+  destruct (update_from_remote_nodup _ _ _ _ Hu) as [N1 N2].
+  assert (Hz : forall k c, k = KVideo \/ k = KAudio ->
+                 (forall c0, In c0 (negotiated_of e k) -> c_pt c0 <> 0%N) ->
+                 In c (negotiated_of e' k) -> c_pt c <> 0%N).
+  { intros k c Hk Hold Hc.
+    destruct (step_negotiated_matched _ _ _ _ _ _ Hk Hu Hc) as [Ho|[rcs [r0 [lc [Hs [Hr [Hsame _]]]]]]].
+    - now apply Hold.
+    - destruct (offer_section_in _ _ _ Hs) as [m [o [Hm [_ Hco]]]].
+      rewrite (same_but_fb_pt _ _ Hsame). apply (Hop o r0); [eapply nth_error_In; eauto|congruence]. }
+  split; (split; [auto|]).
+  - intros c Hc. exact (Hz KVideo c (or_introl eq_refl) Zv Hc).
+  - intros c Hc. exact (Hz KAudio c (or_intror eq_refl) Za Hc).
+Qed.
+
+Lemma negotiated_pts : forall e k,
+  pts_ok (e_nvideo e) -> pts_ok (e_naudio e) -> pts_ok (negotiated_of e k).
+Proof. intros e [] Hv Ha; cbn; assumption. Qed.
+
+Lemma pinv_srd : forall s offer, pinv s -> offer_pts offer -> pinv (fst (srd_offer s offer)).
+Proof.
+  intros s offer [Hv [Ha Hp]] Hop. unfold srd_offer.
+  destruct (update_remote_x (m_e s) (m_x s) (map os_rsec offer)) as [[e' x'] r] eqn:Hu.
+  destruct (engine_pts_step _ _ _ _ _ _ Hop Hu Hv Ha) as [Hv' Ha'].
+  destruct r as [[]|msg|]; cbn [fst]; try (split; [|split]; assumption).
+  split; [exact Hv'|split; [exact Ha'|]]. cbn [m_ext]. intros i x Hx.
+  destruct (Nat.lt_ge_cases i (List.length (m_ext s))) as [L|G].
+  - rewrite nth_error_app1 in Hx by lia. eapply Hp; eauto.
+  - rewrite nth_error_app2 in Hx by lia. rewrite nth_error_map in Hx.
+    destruct (nth_error (skipn (List.length (m_trs s)) (AD.set_remote (m_trs s) (map ad_sec offer)))
+                        (i - List.length (m_ext s))) as [t|] eqn:Ht; [|discriminate].
+    cbn in Hx. injection Hx as <-. cbn [tx_prefs].
+    rewrite nth_error_skipn in Ht.
+    set (K := fun j => match nth_error offer j with Some o => os_kind o | None => KUnknown end).
+    assert (HK : forall j k d, nth_error (map ad_sec offer) j = Some (k, d) -> d <> AD.DUnk -> kc k = K j).
+    { intros j k d Hj Hd. destruct (ad_sec_known _ _ _ _ Hj Hd) as [o [Ho [_ [Hk _]]]].
+      unfold K. now rewrite Ho. }
+    destruct (set_remote_effect K (m_trs s) (map ad_sec offer) HK) as [_ [_ CR]].
+    assert (Hge : List.length (m_trs s) <= List.length (m_trs s) + (i - List.length (m_ext s))) by lia.
+    destruct (CR _ t Hge Ht) as [j [k [d [Hj [Hd [Hm [Hkk _]]]]]]].
+    destruct (ad_sec_known _ _ _ _ Hj Hd) as [o [Ho [Hkn [Hko _]]]].
+    unfold created_prefs. rewrite Hm, Ho, Hkk, Hko.
+    rewrite (get_codecs_by_kind_negotiated e' (os_kind o) (srd_flags _ _ _ _ _ Hu j o Ho Hkn)).
+    destruct (negotiated_pts e' (os_kind o) Hv' Ha') as [Nn Zn].
+    split; [now apply set_prefs_from_remote_nodup|].
+    intros c Hc. apply set_prefs_from_remote_pts in Hc. apply in_map_iff in Hc.
+    destruct Hc as [c0 [Hc0 Hin]]. rewrite <- Hc0. now apply Zn.
+Qed.
+
+Lemma pinv_exchange : forall s offer, pinv s -> offer_pts offer -> pinv (fst (exchange s offer)).
+Proof.
+  intros s offer H Hop. unfold exchange. pose proof (pinv_srd s offer H Hop) as H1.
+  destruct (srd_offer s offer) as [s1 [[]|msg|]]; cbn [fst] in *; try exact H1.
+  destruct (create_answer s1 offer); cbn [fst]; exact H1.
+Qed.
+
+Definition mop_kp (K : nat -> kind) (o : mop) : Prop :=
+  match o with
+  | MAdd k d prefs => pts_ok prefs
+  | MExchange offer => offer_kinds K offer /\ offer_pts offer
+  end.
+
+Lemma kp_run : forall K os s,
+  kinv K s -> pinv s -> Forall (mop_kp K) os -> kinv K (run_mops s os) /\ pinv (run_mops s os).
+Proof.
+  induction os as [|o t IH]; intros s Hk Hp Ho; [auto|].
+  inversion Ho as [|? ? Ho1 Ho2]; subst. cbn [run_mops fold_left]. apply IH; [| |assumption].
+  - destruct o as [k d prefs|offer]; cbn [mstep]; [now apply kinv_add_local|].
+    destruct Ho1. now apply kinv_exchange.
+  - destruct o as [k d prefs|offer]; cbn [mstep mop_kp] in *; [now apply pinv_add_local|].
+    destruct Ho1. now apply pinv_exchange.
+Qed.
+
+Lemma answer_secs_pts : forall K s offer l0 l,
+  kinv K s -> pinv s -> offer_kinds K offer ->
+  (forall m o, nth_error offer m = Some o -> os_kind o <> KUnknown -> neg_flag (m_e s) (os_kind o) = true) ->
+  (forall o i, In (o, i) l0 ->
+     exists j t, nth_error offer j = Some o /\ os_kind o <> KUnknown /\
+                 nth_error (m_trs s) i = Some t /\ AD.t_mid t = Some j) ->
+  answer_secs s l0 = Ok l -> Forall (fun sec => NoDup (sec_formats sec)) l.
+Proof.
+  intros K s offer l0. induction l0 as [|[o i] rest IH]; intros l Hinv Hpi Hok Hfl Hsp H.
+  - cbn in H. inversion H; subst. constructor.
+  - cbn [answer_secs] in H. destruct (trans_at s i) as [t|] eqn:Ht; [|discriminate].
+    unfold rbind in H.
+    destruct (transceiver_section (m_e s) (m_x s) t (Some (os_exts o))) as [sec|e|] eqn:Hsec; try discriminate.
+    destruct (answer_secs s rest) as [r|e|] eqn:Hr; try discriminate. inversion H; subst l.
+    constructor; [|apply IH; auto; intros o' i' Hin; apply Hsp; now right].
+    destruct (Hsp o i (or_introl eq_refl)) as [j [tr [Hj [Hkn [Htr Hm]]]]].
+    unfold trans_at in Ht. rewrite Htr in Ht.
+    destruct (nth_error (m_ext s) i) as [x|] eqn:Hxx; [|discriminate]. inversion Ht; subst t.
+    destruct Hinv as [Hl Hk]. destruct Hpi as [Hv [Ha Hp]].
+    assert (Hkind : kc (AD.t_kind tr) = os_kind o) by (rewrite (Hk i tr j Htr Hm); symmetry; now apply Hok).
+    unfold transceiver_section in Hsec. cbn [t_kind t_prefs t_sender] in Hsec.
+    rewrite Hkind, (get_codecs_by_kind_negotiated _ _ (Hfl j o Hj Hkn)) in Hsec.
+    assert (Hnd : NoDup (map c_pt (get_codecs (negotiated_of (m_e s) (os_kind o)) (tx_prefs x)))).
+    { destruct (negotiated_pts (m_e s) (os_kind o) Hv Ha) as [Nn _].
+      apply get_codecs_pt_nodup; [exact Nn|]. destruct (Hp i x Hxx) as [Np Zp].
+      destruct (tx_prefs x); [now left|right]. split; assumption. }
+    destruct (get_codecs _ _) as [|c0 cs].
+    + destruct (AD.t_sender tr); inversion Hsec; subst. constructor.
+    + inversion Hsec; subst sec. exact Hnd.
+Qed.
+
+(* for all registrations with distinct payload types, every history of local
+   additions and answered offers and every further offer: when the kinds of the
+   mids are stable, no offered codec has payload type 0 and SetCodecPreferences
+   is given lists with distinct non-zero payload types (or none), every section
+   of the answer lists each payload type once -- whether its transceiver is a
+   local one or was created from a remote description, now or earlier *)
+Lemma history_answer_pts : forall K video audio multi x os offer s' l,
+  Forall (mop_kp K) os -> mop_kp K (MExchange offer) ->
+  exchange (run_mops (new_mpc (new_engine video audio multi) x) os) offer = (s', Ok l) ->
+  Forall (fun sec => NoDup (sec_formats sec)) l.
+Proof.
+  intros K video audio multi x os offer s' l Hos [Hok Hop] H.
+  destruct (kp_run K os (new_mpc (new_engine video audio multi) x)) as [Hk Hp].
+  { split; [reflexivity|]. intros i t m Hi. destruct i; discriminate. }
+  { split; [apply pts_ok_nil|split; [apply pts_ok_nil|]]. intros i x0 Hi. destruct i; discriminate. }
+  { exact Hos. }
+  set (s := run_mops (new_mpc (new_engine video audio multi) x) os) in *.
+  unfold exchange in H.
+  pose proof (kinv_srd K s offer Hk Hok) as Hk1. pose proof (pinv_srd s offer Hp Hop) as Hp1.
+  destruct (srd_offer s offer) as [s1 [[]|msg|]] eqn:Hs; try (inversion H; fail).
+  cbn [fst] in Hk1, Hp1.
+  destruct (create_answer s1 offer) as [l1|e|] eqn:Hc; inversion H; subst.
+  unfold create_answer, rbind in Hc.
+  destruct (assoc_of s1 offer) as [assoc|e|] eqn:Ha; try discriminate.
+  eapply (answer_secs_pts K s1 offer assoc l Hk1 Hp1 Hok).
   - eapply srd_offer_flags; eauto.
   - intros o i Hin. unfold assoc_of in Ha.
     destruct (assoc_secs_spec _ _ _ _ _ Ha o i Hin) as [j [t Hjt]]. exists j, t. exact Hjt.
